@@ -328,6 +328,21 @@ inductive_step!(c10_buz_inductive_step_w5_i0, 5, 0);
 inductive_step!(c10_buz_inductive_step_w5_i3, 5, 3);
 inductive_step!(c10_buz_inductive_step_w8_i0, 8, 0);
 inductive_step!(c10_buz_inductive_step_w8_i5, 8, 5);
+macro_rules! inductive_step_big {
+    ($name:ident, $w:expr, $i:expr) => {
+        #[kani::proof]
+        #[kani::unwind(68)]
+        fn $name() {
+            inductive_step_at::<$w>($i);
+        }
+    };
+}
+inductive_step_big!(c10_buz_inductive_step_w16_i0, 16, 0);
+inductive_step_big!(c10_buz_inductive_step_w16_i9, 16, 9);
+inductive_step_big!(c10_buz_inductive_step_w32_i0, 32, 0);
+inductive_step_big!(c10_buz_inductive_step_w32_i31, 32, 31);
+inductive_step_big!(c10_buz_inductive_step_w64_i0, 64, 0);
+inductive_step_big!(c10_buz_inductive_step_w64_i17, 64, 17);
 
 fn inv_after_init<const W: usize>() {
     let p: [u8; W] = kani::any();
